@@ -788,6 +788,8 @@ pub fn macro_extra_profile() -> Space<Prog> {
         (vec![Item::Cond { neg: false, name: "CF".into(), then: vec![Item::Text], elsifs: vec![], els: Some(vec![Item::Text]) }], vec![("CF(x)".into(), Some("x".into()))]),
         (vec![f1("F", "x", "\"a\\\"x\" x"), Item::Text, u("F", Some(vec!["p"])), Item::Text], vec![]),
         (vec![f1("F", "x", "\"x\\\\\" x \"x\""), Item::Text, u("F", Some(vec!["p"])), Item::Text], vec![]),
+        (vec![f1("F", "x", "\"x\\\\\" x // trailing comment"), Item::Text, u("F", Some(vec!["p"])), Item::Text], vec![]),
+        (vec![def("A", "\"c:\\\\\" /* c */ 1 // d"), Item::Text, u("A", None), Item::Text], vec![]),
     ];
     let layouts = Space::of(vec![Layout::OwnLine, Layout::Inline, Layout::IndentCrlf]);
     Space::of(shapes).product(layouts).map(|((items, pre), layout)| Prog { items, layout, pre })
